@@ -241,6 +241,9 @@ def o05_3(tier):
                     ctx.ensure(vals[i] == ctx.symbols[f"{prefix}{i}"], f"value {i} = entry {i} of the solver result (multiplier dropped)")
             if not allow_neg:
                 ctx.ensure(ctx.And(*[vals[i] >= 0 for i in range(c)]), "negatives disallowed => no reported tension is negative")
+                if ctx.mode == "sym" and log[-1][0] == "inv":
+                    ctx.ensure(ctx.symbols[result_symbol(log, "inv", c)] >= 0,
+                               "negatives disallowed => an exact solution is accepted only with a non-negative multiplier (the optimum is over non-negative candidates)")
             # write-back and frame condition
             written = {}
             for i, p in enumerate(used):
